@@ -13,6 +13,7 @@ import (
 )
 
 type Clause struct {
+	ExplicitProps bool // the clause names its properties itself (a precondition then reports under those at call sites)
 	Kind  string // requires, ensures, invariant, decreases, lemma, axiom
 	Label string
 	Props []string
@@ -217,6 +218,7 @@ func (cs *ContractSet) LoadFile(path, pkgPath string) {
 				label = m[1]
 				src = src[len(m[0]):]
 			}
+			explicit := props != nil
 			if props == nil && cur != nil {
 				props = cur.Props
 			}
@@ -225,7 +227,7 @@ func (cs *ContractSet) LoadFile(path, pkgPath string) {
 				cs.errf(path, ll.line, "%v", err)
 				return nil
 			}
-			return &Clause{Kind: kind, Label: label, Props: props, Src: src, Expr: e, File: path, Line: ll.line}
+			return &Clause{Kind: kind, Label: label, Props: props, ExplicitProps: explicit, Src: src, Expr: e, File: path, Line: ll.line}
 		}
 		switch word {
 		case "func", "extern", "iface", "closure", "callback":
